@@ -240,8 +240,8 @@ func (i *Index) AddDesc(d Descriptor, opts ...IndexOpt) {
 				return
 			}
 			if compat < 0 && (md.Annotations == nil ||
-				((tag == "" || md.Annotations[AnnotRefName] == "" || md.Annotations[AnnotRefName] == tag) &&
-					(referrer == "" || md.Annotations[AnnotReferrerSubject] == "" || md.Annotations[AnnotReferrerSubject] == referrer))) {
+				((md.Annotations[AnnotRefName] == "" || md.Annotations[AnnotRefName] == tag) &&
+					(md.Annotations[AnnotReferrerSubject] == "" || md.Annotations[AnnotReferrerSubject] == referrer))) {
 				compat = mi
 			}
 		}
